@@ -19,8 +19,9 @@ RULE = (
 )
 TRUSTED = ["models: lean/SRVerif/Model/*.lean; specification: Spec.validSol in lean/SRVerif/Spec/Opt.lean"]
 ASSUMPTIONS = ["leaf syntenies non-empty with distinct families"]
-OPEN = ["C04_statement for thl / spfs / uspfs (decode only follows finite table entries) is stated, not proved; "
-        "proved: C04_lca, C04_rank (results are candidates)"]
+OPEN = [
+    'C04_unord_statement (family-placement clause for the unordered solvers) — see Properties/C04Un.lean when present; proved: lca, thl, exh, ordered solvers (C04Dp.lean)',
+]
 
 CORPUS = [
     # fixed: F-SPFS-SLOSS0, F-USPFS-ALIAS, F-THL-UNREACHABLE
